@@ -41,7 +41,7 @@ theorem at_most_N (s : St) (h : s.served.length ≤ s.cap) (e : Ev) :
     · refine drain_bounded _ _ ?_
       have := List.length_filter_le (fun x => x != id) s.served
       simp only
-      omega
+      split <;> omega
     · exact ⟨h, rfl⟩
 
 theorem at_most_N_run (cap : Nat) (es : List Ev) : ∀ s ∈ run (init cap) es, s.served.length ≤ cap := by
@@ -82,7 +82,7 @@ theorem insider_served (s : St) (id : Nat) (hq : s.queue = []) (hfree : s.served
 theorem depart_frees_slot (s : St) (id : Nat) (hs : s.served.contains id = true) (hq : s.queue = []) :
     (step s (.depart id)).served = s.served.filter (· != id) := by
   simp only [step, hs, if_true, hq]
-  simp [drain]
+  simp [drain, Gen.server_connCloseDeferred]
 
 theorem drain_accept (fuel : Nat) (s : St) (p : Pending) (rest : List Pending) (hq : s.queue = p :: rest)
     (hfree : s.served.length < s.cap) (hin : p.inside = true) (ha : p.alive = true) :
